@@ -34,7 +34,7 @@ class Foreign(Exception):
 
 class IterState:
     __slots__ = ("view", "twin", "gen_s", "gen_t", "cur_s", "cur_t", "yields", "dirty", "started", "perturbed",
-                 "pre")
+                 "pre", "variants")
 
     def __init__(self, view, twin, gen_s, gen_t, pre):
         self.view = view
@@ -48,6 +48,7 @@ class IterState:
         self.started = False
         self.perturbed = 0
         self.pre = pre
+        self.variants = []  # [state, sequence, generator, current message] - same content, other freshness states
 
     def phase(self):
         if not self.started:
@@ -75,6 +76,60 @@ def _call(fn, *a):
 def _msg_fields(m):
     return (m.message_type.value, m.channel, m.time, m.note, m.velocity, m.numerator, m.denominator,
             m.key.value if m.key is not None else None, m.program, m.control)
+
+
+def _struct_abs(msgs):
+    return [(m.message_type.value, m.time, None if m.message_type is observe.MT.INTERNAL else m.channel, m.note,
+             m.velocity, m.numerator, m.denominator, m.key.value if m.key is not None else None, m.program, m.control)
+            for m in msgs]
+
+
+def _struct_rel(msgs):
+    W = observe.MT.WAIT
+    return [(m.message_type.value, m.time if m.message_type is W else None,
+             None if m.message_type is W else m.channel, m.note,
+             m.velocity, m.numerator, m.denominator, m.key.value if m.key is not None else None, m.program, m.control)
+            for m in msgs]
+
+
+def normal_form_views(P):
+    """P: throw-away clone. Returns (A, R) - the lists both accessors return - if the sequence is in *normal form*:
+    regenerating either view from the other reproduces it structurally (same order, same wait structure; channel of
+    WAIT / INTERNAL markers ignored). In normal form a read or cache drop cannot change the order or structure of any
+    list an operation will see, so the operation's effect must not depend on the freshness state. Returns None otherwise."""
+    try:
+        A = P.abs._messages
+        R = P.rel._messages
+        A2 = P._rel.to_absolute_sequence()._messages
+        R2 = P._abs.to_relative_sequence()._messages
+    except Exception:
+        return None
+    if _struct_abs(A2) != _struct_abs(A) or _struct_rel(R2) != _struct_rel(R):
+        return None
+    return A, R
+
+
+def make_variant(A, R, state):
+    return observe.make_sequence([observe.copy_msg(m) for m in A] if state in ("abs", "both") else None,
+                                 [observe.copy_msg(m) for m in R] if state in ("rel", "both") else None)
+
+
+_LOOSE_SKIP = ("is_channel_consistent", "get_sequence_channel")
+
+
+def loosen(op, r):
+    """Drop from a returned value what legitimately depends on marker details (INTERNAL entries, channel of WAIT)."""
+    if op in _LOOSE_SKIP:
+        return None
+    if op == "get_message_times_of_type":
+        return [x for x in r if x[1][0] != "internal"]
+    if op == "get_message_pairings":
+        return [[ch, [p for p in ps if p and p[0][0] != "internal"]] for ch, ps in r]
+    if op == "get_interleaved_message_pairings":
+        return [[ch, p] for ch, p in r if p and p[0][0] != "internal"]
+    if op == "to_midi_track":
+        return [((m[0], None) + tuple(m[2:])) if m[0] == "wait" else m for m in r]
+    return r
 
 
 # =====================================================================================
@@ -193,6 +248,7 @@ class C04World:
         kind, _, applier, _, _ = OPS[op]
         args = ev.get("args", {})
         T = clone_seq(S)  # clean twin: only the fresh views, deep-copied, no stale leftovers
+        P = clone_seq(S)  # pre-state, for the cross-freshness-state variants (oracle D2)
         rs, es = _call(applier, S, args)
         rt, et = _call(applier, T, args)
         key = {"op": op, "pre": pre}
@@ -227,6 +283,7 @@ class C04World:
         if state_s != state_t:
             raise _V(Violation("STATE-DEPENDENT", f"{op} from state {pre}: effect differs from clean twin: "
                                f"{first_diff(list(state_s), list(state_t))}"[:600], key))
+        self._cross_state(P, op, applier, args, pre, cs, state_s)
         # adoption of returned sequences as new subjects
         adopt = ev.get("adopt")
         if adopt is not None and len(self.slots) < MAX_SLOTS:
@@ -239,6 +296,40 @@ class C04World:
                 self.slots.append(Slot(cand[adopt % len(cand)]))
                 self.stats["adopt/" + op] += 1
         return "ok"
+
+    def _cross_state(self, P, op, applier, args, pre, cs, state_s):
+        """Oracle D2 (freshness independence): from a pre-state in normal form, the same operation executed from the
+        other two freshness states (reached by the legal, maskable perturbations read + cache drop) must have the
+        same effect and return the same value."""
+        nf = normal_form_views(P)
+        if nf is None:
+            self.stats["d2/skipped_not_normal_form"] += 1
+            return
+        A, R = nf
+        key = {"op": op, "pre": pre}
+        ls = loosen(op, cs)
+        for state in MODES:
+            if state == pre:
+                continue
+            V = make_variant(A, R, state)
+            rv, ev_ = _call(applier, V, args)
+            if ev_ is not None:
+                raise _V(Violation("STATE-DEPENDENT", f"{op} succeeds from state {pre} but raises from state {state} on the "
+                                   f"same content: {type(ev_).__name__}: {ev_}", key))
+            try:
+                cv = self.canon_result(rv, op, state)
+                sv = canon_views(V)
+            except (_V, Unreadable) as e:
+                d = e.v.detail if isinstance(e, _V) else str(e)
+                raise _V(Violation("STATE-DEPENDENT", f"{op} from state {state} (same content as the subject in state {pre}) "
+                                   f"leaves a broken sequence: {d}"[:600], key))
+            if loosen(op, cv) != ls:
+                raise _V(Violation("STATE-DEPENDENT", f"{op}: value returned from state {pre} differs from state {state} on the "
+                                   f"same content: {first_diff(ls, loosen(op, cv))}"[:600], key))
+            if sv != state_s:
+                raise _V(Violation("STATE-DEPENDENT", f"{op}: effect from state {pre} differs from state {state} on the same "
+                                   f"content: {first_diff(list(state_s), list(sv))}"[:600], key))
+            self.stats["d2/variants_compared"] += 1
 
     # ---- maskable perturbations (oracle E)
 
@@ -315,6 +406,15 @@ class C04World:
         else:
             gs, gt = S.messages_rel(), T.messages_rel()
         slot.it = IterState(view, T, gs, gt, pre)
+        nf = normal_form_views(clone_seq(S))
+        if nf is not None:
+            for state in MODES:
+                if state != pre:
+                    V = make_variant(nf[0], nf[1], state)
+                    slot.it.variants.append([state, V, V.messages_abs() if view == "abs" else V.messages_rel(), None])
+            self.stats["d2/iterations_with_variants"] += 1
+        else:
+            self.stats["d2/iterations_not_normal_form"] += 1
         self.stats[f"reach_fresh_x_op/{pre}|iter_{view}"] += 1
         self.stats[f"op/iter_{view}"] += 1
         return "ok"
@@ -332,6 +432,15 @@ class C04World:
             cls = "PERTURB" if it.perturbed else "STATE-DEPENDENT"
             raise _V(Violation(cls, f"{op}{where}: subject (with {it.perturbed} interleaved reads/drops) differs from the "
                                f"unperturbed twin: {first_diff(list(st), list(tt))}"[:600], key))
+        for var in it.variants:
+            try:
+                sv = canon_views(var[1])
+            except Unreadable as u:
+                raise _V(Violation("STATE-DEPENDENT", f"{op}{where}: the same iteration started from state {var[0]} "
+                                   f"(subject started from {it.pre}) leaves the sequence unreadable: {u}", key))
+            if sv != st:
+                raise _V(Violation("STATE-DEPENDENT", f"{op}{where}: the same iteration started from state {var[0]} differs "
+                                   f"from the subject's (started from {it.pre}): {first_diff(list(st), list(sv))}"[:600], key))
 
     def _iter_finish(self, slot, op, pre, where):
         self._clean_point(slot, op, pre, where)
@@ -355,6 +464,7 @@ class C04World:
             raise _V(Violation("PERTURB" if it.perturbed else "STATE-DEPENDENT",
                                f"{op}: iteration length differs from unperturbed twin after {it.yields} yields", key))
         if done_s:
+            self._variants_advance(it, op, key, True, None)
             return True
         if _msg_fields(ms) != _msg_fields(mt):
             raise _V(Violation("PERTURB" if it.perturbed else "STATE-DEPENDENT",
@@ -363,7 +473,29 @@ class C04World:
         it.cur_s, it.cur_t = ms, mt
         it.yields += 1
         it.dirty = False
+        self._variants_advance(it, op, key, False, ms)
         return False
+
+    def _variants_advance(self, it, op, key, done_s, ms):
+        W, I = observe.MT.WAIT, observe.MT.INTERNAL
+        for var in it.variants:
+            mv, ev_ = _call(next, var[2])
+            done_v = isinstance(ev_, StopIteration)
+            if ev_ is not None and not done_v:
+                raise _V(Violation("STATE-DEPENDENT", f"{op}: iterator started from state {var[0]} raised "
+                                   f"{type(ev_).__name__}: {ev_}", key))
+            if done_v != done_s:
+                raise _V(Violation("STATE-DEPENDENT", f"{op}: iteration started from state {var[0]} has a different length "
+                                   f"than from state {it.pre} (after {it.yields} yields)", key))
+            if done_s:
+                continue
+            fs, fv = list(_msg_fields(ms)), list(_msg_fields(mv))
+            if ms.message_type in (W, I):
+                fs[1] = fv[1] = None
+            if fs != fv:
+                raise _V(Violation("STATE-DEPENDENT", f"{op}: message #{it.yields} yielded from state {var[0]} differs from "
+                                   f"state {it.pre}: {fv} != {fs}", key))
+            var[3] = mv
 
     def _apply_during_iteration(self, ev, slot, pre, phase):
         op = ev["op"]
@@ -390,6 +522,8 @@ class C04World:
             self.stats[f"reach_iter_phase/{phase}|close"] += 1
             _, es = _call(it.gen_s.close)
             _, et = _call(it.gen_t.close)
+            for var in it.variants:
+                _call(var[2].close)
             if es is not None:
                 raise _V(Violation("UNREADABLE", f"{tag}: close() raised {type(es).__name__}: {es}", {"op": tag, "pre": pre}))
             self._iter_finish(slot, tag, pre, " at close")
@@ -398,6 +532,8 @@ class C04World:
             self.stats[f"reach_iter_phase/{phase}|throw"] += 1
             _, es = _call(it.gen_s.throw, _Boom())
             _, et = _call(it.gen_t.throw, _Boom())
+            for var in it.variants:
+                _call(var[2].throw, _Boom())
             if not isinstance(es, (_Boom, StopIteration)):
                 raise _V(Violation("UNREADABLE", f"{tag}: throw() gave {type(es).__name__}: {es}", {"op": tag, "pre": pre}))
             self._iter_finish(slot, tag, pre, " at throw")
@@ -420,6 +556,9 @@ class C04World:
                 return "skip:no-editable-field"
             setattr(it.cur_s, r[0], r[1])
             setattr(it.cur_t, r[0], r[1])
+            for var in it.variants:
+                if var[3] is not None:
+                    setattr(var[3], r[0], r[1])
             it.dirty = True
             self.mutations += 1
             self.stats[f"op/iter_{view}:edit"] += 1
@@ -583,6 +722,10 @@ def _gen_event(rng, world, knobs):
         op = seqops.weighted_choice(rng, seqops.VALUE_OPS, knobs["vals"])
         if op in seqops.NEEDS_NONEMPTY_ABS and seqops._abs_count(S) == 0:
             op = "is_empty"
+        if op == "sequences_split_bars" and seqops._late_tsig(S) and rng.random() < 0.85:
+            op = "split"
+        if op == "get_sequence_channel" and len(seqops._channels(S)) > 1 and rng.random() < 0.9:
+            op = "is_channel_consistent"
         ev = {"op": op, "slot": si, "args": OPS[op][1](rng, S)}
         if op in ("split", "copy", "sequences_split_bars") and rng.random() < 0.35:
             ev["adopt"] = rng.randrange(0, 8)
